@@ -258,7 +258,7 @@ def _season_window(rng, wname, crop, n_seasons, start_mode, planting=None, end_a
     return planting, start.strftime("%Y/%m/%d"), end.strftime("%Y/%m/%d")
 
 
-def random_irr(rng, method, start, end):
+def random_irr(rng, method, start, end, outside=None):
     irr = {"method": int(method)}
     if method == 1:
         irr["SMT"] = [float(rng.choice([0, 20, 40, 60, 70, 80, 100])) for _ in range(4)]
@@ -269,7 +269,7 @@ def random_irr(rng, method, start, end):
         k = int(rng.integers(0, 25))
         idx = sorted(set(rng.integers(0, len(ds), k).tolist()))
         irr["schedule"] = [[ds[i].strftime("%Y-%m-%d"), float(rng.choice([0, 5, 12.5, 25, 40, 60]))] for i in idx]
-        if rng.random() < 0.6:
+        if (rng.random() < 0.6) if outside is None else bool(outside):
             # a schedule kept for a longer period than the one simulated: events before the start and after the end
             for off in sorted(set(rng.integers(1, 200, 4).tolist())):
                 irr["schedule"].insert(0, [(ds[0] - pd.Timedelta(days=int(off))).strftime("%Y-%m-%d"), float(rng.choice([15, 30]))])
@@ -408,15 +408,16 @@ def gen_scenario(rng, idx, strata=None):
         nlayer = len(lays)
         soil["kwargs"] = {"cn": float(rng.choice([46, 61, 72, 77])), "rew": float(rng.choice([5, 9, 12]))}
     kw = soil.setdefault("kwargs", {})
-    if rng.random() < 0.3:
-        kw["adj_cn"] = 0
-    if rng.random() < 0.2:
-        kw["evap_z_min"] = float(rng.choice([0.1, 0.15, 0.2]))
-        kw["evap_z_max"] = float(rng.choice([0.2, 0.3, 0.4]))
-    if rng.random() < 0.15:
-        kw["adj_rew"] = 0
-    if rng.random() < 0.1:
-        kw["calc_cn"] = 1
+    if not st.get("plain_soil"):      # (plain_soil: the soil options keep their defaults)
+        if rng.random() < 0.3:
+            kw["adj_cn"] = 0
+        if rng.random() < 0.2:
+            kw["evap_z_min"] = float(rng.choice([0.1, 0.15, 0.2]))
+            kw["evap_z_max"] = float(rng.choice([0.2, 0.3, 0.4]))
+        if rng.random() < 0.15:
+            kw["adj_rew"] = 0
+        if rng.random() < 0.1:
+            kw["calc_cn"] = 1
     scen["soil"] = soil
     # crop
     ov = {}
@@ -439,7 +440,7 @@ def gen_scenario(rng, idx, strata=None):
     method = st.get("irr_method")
     if method is None:
         method = int(rng.integers(0, 6))
-    scen["irr"] = random_irr(rng, method, start, end) if method != 0 or rng.random() < 0.5 else None
+    scen["irr"] = random_irr(rng, method, start, end, st.get("sched_outside")) if method != 0 or rng.random() < 0.5 else None
     if scen["irr"] is not None and "irr_over" in st:
         scen["irr"].update(st["irr_over"])
     if "irr_sched_rel" in st:
@@ -490,7 +491,7 @@ QUICK_STRATA = [
     dict(crop="Maize", station="champion_climate.txt", irr_method=1, n_seasons=2, start_mode="before", off_season=True, planting="05/01",
          soil_kind="builtin", dz=None, irr_over={"SMT": [70.0, 60.0, 50.0, 40.0], "AppEff": 70.0, "MaxIrr": 12.0, "MaxIrrSeason": 10000.0}),
     dict(crop="Cotton", station="tunis_climate.txt", irr_method=2, n_seasons=1, start_mode="before", off_season=True),
-    dict(crop="Potato", station="brussels_climate.txt", irr_method=3, n_seasons=2, start_mode="after", off_season=False),
+    dict(crop="Potato", station="brussels_climate.txt", irr_method=3, sched_outside=True, planting="04/25", n_seasons=2, end_anniv=(2, 60), start_mode="after", off_season=False),
     dict(crop="Wheat", station="tunis_climate.txt", irr_method=4, n_seasons=3, start_mode="at", off_season=False,
          iwc={"wc_type": "Prop", "method": "Layer", "depth_layer": [1], "value": ["WP"]}, soil="Loam", soil_kind="builtin"),
     dict(crop="Tomato", station="cordoba_climate.txt", irr_method=5, n_seasons=1, start_mode="before", off_season=True),
@@ -570,6 +571,16 @@ QUICK_STRATA = [
     dict(crop="Wheat", station="tunis_climate.txt", irr_method=0, soil="Loam", soil_kind="builtin", n_seasons=2,
          start_mode="after", off_season=False, planting="10/15",
          co2={"constant": False, "series": [[1900, 300.0], [1975, 330.0], [1980, 380.0], [1985, 460.0], [1990, 540.0], [2100, 700.0]]}),
+    # a seasonal irrigation maximum that binds in every one of several seasons, the days between the seasons not simulated
+    dict(crop="Wheat", station="tunis_climate.txt", irr_method=2, irr_over={"IrrInterval": 7, "MaxIrr": 30.0, "MaxIrrSeason": 120.0, "AppEff": 100.0},
+         soil="SandyLoam", soil_kind="builtin", dz=None, planting="10/15", fm="none", gw=False, n_seasons=3, start_mode="at", off_season=False),
+    dict(crop="Maize", station="champion_climate.txt", irr_method=1, irr_over={"SMT": [80.0] * 4, "MaxIrr": 25.0, "MaxIrrSeason": 150.0, "AppEff": 90.0},
+         soil="Loam", soil_kind="builtin", dz=None, planting="05/01", fm="none", gw=False, n_seasons=3, start_mode="at", off_season=False),
+    # a top layer thinner than the evaporation layer (whose air-dry limit differs from the layer below), rainfed through
+    # dry summers: the evaporation layer dries out across the layer boundary
+    dict(crop="Barley", station="tunis_climate.txt", irr_method=0, soil_kind="custom", dz=[0.1] * 12,
+         layers=[[0.1, 0.05, 0.12, 0.36, 3000, 100], [1.1, 0.32, 0.50, 0.54, 15, 100]], planting="11/01", fm="none", gw=False,
+         n_seasons=2, start_mode="before", off_season=True, iwc={"wc_type": "Prop", "method": "Layer", "depth_layer": [1, 2], "value": ["WP", "WP"]}),
     # a water table standing exactly at the soil surface
     dict(crop="PaddyRice", station="hyderabad_climate.txt", irr_method=0, gw=True, gw_values=[0.0], soil="Paddy", soil_kind="builtin",
          dz=[0.1] * 12, fm="none", planting="07/15", n_seasons=1, start_mode="before", off_season=True),
@@ -583,7 +594,7 @@ QUICK_STRATA = [
          planting="04/15", n_seasons=2, start_mode="at", off_season=False),
     # deficit irrigation that stops well before senescence and resumes just after it (mild stress relieved late), dry weather
     dict(crop="Maize", station="champion_climate.txt", soil="SandyLoam", soil_kind="builtin", dz=None, synth=True, regime="steady",
-         planting="05/01", n_seasons=1, start_mode="at", fm="none", gw=False, iwc={"wc_type": "Prop", "method": "Layer", "depth_layer": [1], "value": ["FC"]},
+         planting="05/01", n_seasons=1, start_mode="at", fm="none", gw=False, plain_soil=True, co2=None, iwc={"wc_type": "Prop", "method": "Layer", "depth_layer": [1], "value": ["FC"]},
          irr_sched_rel=[(d, 7.0) for d in range(1, 66)] + [(108, 40.0)] + [(d, 7.0) for d in range(109, 140)], irr_over={"MaxIrr": 40.0}),
     # three layers whose conductivity falls with depth under storms, behind low bunds and without: water that cannot
     # drain backs up to the surface from more than one compartment on the same day
